@@ -912,4 +912,115 @@ theorem range_le_of_before (st en : Nat → Nat) (hmono : ∀ i j, i < j → en 
     simp only [this, ↓reduceIte]
     exact Nat.le_refl _
 
+
+/-! ## Part E: position bounds -/
+
+theorem fuse_lt (N : Int) (s : Script α) (h : ∀ e ∈ s, e.1 < N) : ∀ e ∈ fuse s, e.1 < N := by
+  fun_induction fuse s with
+  | case1 => simp
+  | case2 c => simpa using h
+  | case3 it rest ld i2 y q ih1 ih2 =>
+    have hd : i2 < N := h (i2, Change.delete y) (by simp)
+    have hq : ∀ e ∈ q, e.1 < N := fun e he => h e (by simp [he])
+    intro e he
+    simp only [List.mem_cons] at he
+    rcases he with rfl | he
+    · exact hd
+    · split at he
+      · exact ih1 (by assumption) hq e he
+      · refine ih2 ?_ e he
+        intro e' he'
+        simp only [List.mem_cons] at he'
+        rcases he' with rfl | he'
+        · exact hd
+        · exact hq e' he'
+  | case4 i1 it rest ld i2 y q hne ih =>
+    intro e he
+    simp only [List.mem_cons] at he
+    rcases he with rfl | he
+    · exact h _ (by simp)
+    · exact ih (fun e' he' => h e' (by simp only [List.mem_cons] at he' ⊢; exact Or.inr he')) e he
+  | case5 c n q hne ih =>
+    intro e he
+    simp only [List.mem_cons] at he
+    rcases he with rfl | he
+    · exact h _ (by simp)
+    · exact ih (fun e' he' => h e' (by simp only [List.mem_cons] at he' ⊢; exact Or.inr he')) e he
+
+theorem segs_lt (old new : List α) (tr : Trace) :
+    ∀ (px : Int) (first c : Nat), ValidFrom old new c first tr → c ≤ old.length → px < Int.ofNat c →
+      ∀ e ∈ segs old new px first c tr, e.1 < Int.ofNat old.length := by
+  induction tr with
+  | nil =>
+    intro px first c _ hc hpx e he
+    simp only [segs, List.mem_append] at he
+    rcases he with he | he
+    · rw [(mem_insOpt he).1]; simp only [Int.ofNat_eq_natCast] at *; omega
+    · have := ((delRun_bounds old (old.length - c) c).1 e he).2
+      simp only [Int.ofNat_eq_natCast] at *; omega
+  | cons q tr ih =>
+    intro px first c hv hc hpx e he
+    obtain ⟨x, y⟩ := q
+    simp only [ValidFrom] at hv
+    obtain ⟨hcx, _, ⟨a, hox, _⟩, hv'⟩ := hv
+    have hx := (List.getElem?_eq_some_iff.mp hox).1
+    simp only [segs, List.mem_append] at he
+    rcases he with he | he | he
+    · rw [(mem_insOpt he).1]; simp only [Int.ofNat_eq_natCast] at *; omega
+    · have := ((delRun_bounds old (x - c) c).1 e he).2
+      simp only [Int.ofNat_eq_natCast] at *; omega
+    · exact ih (Int.ofNat x) (y + 1) (x + 1) hv' (by omega) (by simp only [Int.ofNat_eq_natCast]; omega) e he
+
+
+/-! ## Part F: the auto-import shape `old ++ [x]` -/
+
+/-- The diagonal trace `(k,k), (k+1,k+1), …` of length `d` (oldest first). -/
+def diag (k d : Nat) : Trace := (List.range' k d).map (fun i => (i, i))
+
+theorem diag_succ (k d : Nat) : diag k (d + 1) = (k, k) :: diag (k + 1) d := by
+  simp [diag, List.range'_succ]
+
+theorem snake_diag (old : List α) (x : α) (d : Nat) :
+    ∀ (k : Nat) (tr : Trace), k + d = old.length →
+      followSnake old (old ++ [x]) k k tr = (old.length, old.length, (diag k d).reverse ++ tr) := by
+  induction d with
+  | zero =>
+    intro k tr hk
+    have : k = old.length := by omega
+    subst this
+    rw [followSnake]
+    simp [diag]
+  | succ d ih =>
+    intro k tr hk
+    have hlt : k < old.length := by omega
+    rw [followSnake]
+    have hnew : (old ++ [x])[k]? = some old[k] := by
+      rw [List.getElem?_append_left hlt, List.getElem?_eq_getElem hlt]
+    simp only [hlt, ↓reduceDIte, hnew, ↓reduceIte]
+    rw [ih (k + 1) ((k, k) :: tr) (by omega), diag_succ]
+    simp
+
+theorem segs_diag (old : List α) (x : α) (d : Nat) :
+    ∀ (k : Nat), k + d = old.length →
+      segs old (old ++ [x]) (Int.ofNat k - 1) k k (diag k d)
+        = [(Int.ofNat old.length - 1, Change.insert [x] false)] := by
+  induction d with
+  | zero =>
+    intro k hk
+    have : k = old.length := by omega
+    subst this
+    simp only [diag, List.range'_zero, List.map_nil, segs, List.length_append, List.length_singleton,
+      Nat.sub_self, delRun, List.append_nil]
+    have : slice (old ++ [x]) old.length (old.length + 1) = [x] := by
+      simp [slice]
+    rw [this]
+    simp [insOpt]
+  | succ d ih =>
+    intro k hk
+    rw [diag_succ]
+    simp only [segs, slice_self, insOpt, ↓reduceIte, Nat.sub_self, delRun, List.nil_append]
+    have : Int.ofNat k = Int.ofNat (k + 1) - 1 := by simp
+    rw [this]
+    exact ih (k + 1) (by omega)
+
 end SamVerif.Differ
